@@ -349,6 +349,38 @@ def check_keywords(repo: Repo, run: Run, g: Grammar) -> None:
                 f"{word!r} matches IDENT and the regex terminal {owner}; the IDENT lexer callback maps it to {table.get(word)!r}",
                 f"{repo.mod('celparser').path}",
             )
+    # keyword-prefixed identifiers: a *string* terminal that spells a word of L(IDENT) ("null", "in", ...) is folded
+    # into the IDENT match by lark only when both have the same priority; with a different priority the scanner tries
+    # the keyword first and `nullable` is cut into `null` + `able` (a syntax error or a silent mis-parse)
+    ident_prio = getattr(g.terminals["IDENT"], "priority", 0)
+    for tname, t in sorted(g.terminals.items()):
+        if tname == "IDENT" or type(t.pattern).__name__ != "PatternStr":
+            continue
+        word = t.pattern.value
+        if re.fullmatch(ident_rx, word, ident_flags) is None:
+            continue
+        prio = getattr(t, "priority", 0)
+        run.ob("C06.G3", f"keyword-priority/{word}", prio == ident_prio,
+               f"string terminal {tname} ({word!r}) lies inside L(IDENT) and has priority {prio}; IDENT has {ident_prio}: "
+               + ("lark folds the keyword into the IDENT match, so identifiers that merely start with it stay identifiers" if prio == ident_prio else
+                  f"lark scans for {word!r} separately, so identifiers that start with it ({word}able, {word}_x) are split"), site)
+    # regex terminals that are alternatives of `literal` and overlap IDENT are retyped by the IDENT callback: they must not
+    # outrank IDENT either (otherwise `trueness` lexes as BOOL_LIT + IDENT)
+    for tname in sorted(lit_terms):
+        t = g.terminals.get(tname)
+        if t is None or tname == "IDENT" or type(t.pattern).__name__ == "PatternStr":
+            continue
+        rx, fl = g.regex(tname)
+        words = [w for w in ("true", "false", "null") if re.fullmatch(rx, w, fl)]
+        if not words:
+            continue
+        prio = getattr(t, "priority", 0)
+        # lark sorts terminals by descending priority: the literal must not be tried before IDENT
+        earlier = prio > ident_prio
+        run.ob("C06.G3", f"keyword-priority/{tname}", not earlier,
+               f"regex terminal {tname} (spells {words}) has priority {prio}, IDENT has {ident_prio}: " +
+               ("IDENT is tried first (or together) and the callback retypes the exact keywords" if not earlier else
+                f"{tname} is tried before IDENT, so identifiers that start with {words[0]!r} are split"), site)
     if table:
         for w, t in sorted(table.items()):
             ok = t in g.terminals and w in ("true", "false", "null")
